@@ -287,20 +287,57 @@ func TestVerif_C17_progr(t *testing.T) {
 	s.Finish()
 }
 
+// c17Observers switches on the observers that sit on the same request path as the progress
+// wrappers: tracing (request level, client level, DevMode) and dumping (client / request
+// level, output discarded). Returns a short description.
+func c17Observers(r interface{ Intn(int) int }, c *Client, req *Request) string {
+	desc := ""
+	switch r.Intn(6) {
+	case 0:
+		req.EnableTrace()
+		desc += "trace=request "
+	case 1:
+		c.EnableTraceAll()
+		desc += "trace=client "
+	case 2:
+		c.DevMode()
+		c.EnableDumpAllTo(io.Discard) // keep DevMode's dump and trace, not its console output
+		c.SetLogger(nil)
+		desc += "devmode "
+	default:
+		desc += "trace=off "
+	}
+	switch r.Intn(5) {
+	case 0:
+		c.EnableDumpAllTo(io.Discard)
+		desc += "dump=client"
+	case 1:
+		req.EnableDumpTo(io.Discard)
+		desc += "dump=request"
+	case 2:
+		c.EnableDumpAllTo(io.Discard)
+		c.EnableDumpAllWithoutResponseBody()
+		desc += "dump=client-no-resp-body"
+	default:
+		desc += "dump=off"
+	}
+	return desc
+}
+
 // TestVerif_C17_e2eprogress: real uploads and downloads over loopback with progress callbacks
 // and several intervals; the recorded callback arguments are judged by the oracle, and for
 // the 1 h interval (clock never elapses) compared with the model, whose answer does not depend
 // on how the transfer was split into calls.
 func TestVerif_C17_e2eprogress(t *testing.T) {
 	s := verifh.New(t, "C17", "e2eprogress",
-		"downloads (Content-Length or chunked responses of 0 B … 300 KiB, SetOutput / SetOutputFile) and multipart uploads (1..3 files by path, bytes, reader, FileUpload with FileSize; sizes around 512 B and 32 KiB up to 200 KiB) over HTTP/1.1, HTTP/2 and (uploads) HTTP/3 with callback intervals 0, 1 ns, 1 ms, 1 h; oracle: per transfer the counts are strictly increasing, never above the true size, and end at it (downloads; uploads of known size); for interval 1 h the sequence equals the model's; non-trivial = a transfer with at least one callback")
+		"downloads (Content-Length or chunked responses of 0 B … 300 KiB, SetOutput / SetOutputFile) and multipart uploads (1..3 files by path, bytes, reader, FileUpload with FileSize; sizes around 512 B and 32 KiB up to 200 KiB) over HTTP/1.1, HTTP/2 and (uploads) HTTP/3 with callback intervals 0, 1 ns, 1 ms, 1 h, each combined with tracing (off / Request.EnableTrace / Client.EnableTraceAll / DevMode) and dumping (off / client level / request level / without response body); oracle: per transfer the counts are strictly increasing, never above the true size, and end at it (downloads; uploads of known size); for interval 1 h the sequence equals the model's; non-trivial = a transfer with at least one callback")
 	r := s.Rand()
 	dir := t.TempDir()
 	origins := map[string]*c17Origin{"h1": c17NewOrigin("h1"), "h2": c17NewOrigin("h2"), "h3": c17NewOrigin("h3")}
 	defer origins["h1"].stop()
 	defer origins["h2"].stop()
 	defer origins["h3"].stop()
-	n := verifh.N(150, 3000)
+	n := verifh.N(240, 3000)
 	intervals := []time.Duration{0, time.Nanosecond, time.Millisecond, time.Hour}
 	sizes := []int{0, 1, 511, 512, 513, 4000, 32*1024 - 1, 32 * 1024, 32*1024 + 1, 100000, 200000, 300000}
 	for i := 0; i < n; i++ {
@@ -330,6 +367,10 @@ func TestVerif_C17_e2eprogress(t *testing.T) {
 				emitted = append(emitted, info.DownloadedSize)
 				mu.Unlock()
 			}, interval)
+			obs := c17Observers(r, c, req)
+			for _, w := range strings.Fields(obs) {
+				s.Count(w)
+			}
 			var got []byte
 			var out bytes.Buffer
 			toFile := r.Intn(2) == 0
@@ -356,7 +397,7 @@ func TestVerif_C17_e2eprogress(t *testing.T) {
 			if size > 0 && (len(emitted) == 0 || emitted[len(emitted)-1] != int64(size)) {
 				ok = false
 			}
-			human := fmt.Sprintf("download %s size=%d chunked=%v interval=%v toFile=%v -> %d callbacks, last=%d err=%v", proto, size, chunked, interval, toFile, len(emitted), last, err)
+			human := fmt.Sprintf("download %s size=%d chunked=%v interval=%v toFile=%v %s -> %d callbacks, last=%d err=%v", proto, size, chunked, interval, toFile, obs, len(emitted), last, err)
 			s.Count("download")
 			if interval == time.Hour {
 				// never elapsed: whatever the read sizes were, the model emits the total once at EOF
@@ -422,6 +463,10 @@ func TestVerif_C17_e2eprogress(t *testing.T) {
 			}
 			rec.emitted = append(rec.emitted, info.UploadedSize)
 		}, interval)
+		obs := c17Observers(r, c, req)
+		for _, w := range strings.Fields(obs) {
+			s.Count(w)
+		}
 		o.take()
 		resp, err := req.Post(o.base + "/up")
 		seen := o.take()
@@ -456,7 +501,7 @@ func TestVerif_C17_e2eprogress(t *testing.T) {
 			implGot = append(implGot, c17Ints64(rec.emitted))
 		}
 		mu.Unlock()
-		human := fmt.Sprintf("upload %s interval=%v %s err=%v", proto, interval, sb.String(), err)
+		human := fmt.Sprintf("upload %s interval=%v %s %s err=%v", proto, interval, obs, sb.String(), err)
 		s.Count("upload")
 		if interval == time.Hour {
 			for j := range order {
